@@ -73,6 +73,7 @@ type StepJSON struct {
 	Go   string      `json:"go"`
 	Log  []SinkCall  `json:"sink_calls,omitempty"`
 	Chk  uint64      `json:"chk"`
+	WChk uint64      `json:"wchk"`
 	Dump interface{} `json:"dump,omitempty"`
 }
 
@@ -306,6 +307,19 @@ func (in *inst) checksum(withDump bool) (uint64, interface{}) {
 		return s.h, dj
 	}
 	return s.h, nil
+}
+
+// weightChecksum: order-independent sum over the node table of mix3(root, slot, weight) (Run.v: spec_wchk)
+func (in *inst) weightChecksum() uint64 {
+	d, ok := proto.VerifDumpArray(in.graph)
+	if !ok {
+		return 0
+	}
+	acc := uint64(0)
+	for _, n := range d.Nodes {
+		acc = (acc + mix3(CounterOf(n.Ref.Root), uint64(n.Ref.Slot), uint64(n.Weight))) & mask63
+	}
+	return acc
 }
 
 // ---------- running one operation ----------
@@ -556,16 +570,17 @@ func RunHistory(ini Init, family string, withDump bool, next func(in *inst, step
 			if op.K == "Update" {
 				log = append(log, in.log...)
 			}
-			chk, dump := uint64(0), interface{}(nil)
+			chk, wchk, dump := uint64(0), uint64(0), interface{}(nil)
 			if c == rOk || c == rErr {
 				chk, dump = in.checksum(withDump)
+				wchk = in.weightChecksum()
 			}
 			var lg []string
 			for _, l := range log {
 				lg = append(lg, fmt.Sprintf("(%d,%d,%s)", l.Root, l.Slot, CoqBool(l.Canon)))
 			}
-			steps = append(steps, fmt.Sprintf("(%s, %s, %s, %d)", op.Coq(), res, CoqList(lg), chk))
-			cj.Steps = append(cj.Steps, StepJSON{Op: op, Go: res, Log: log, Chk: chk, Dump: dump})
+			steps = append(steps, fmt.Sprintf("(%s, %s, %s, %d, %d)", op.Coq(), res, CoqList(lg), chk, wchk))
+			cj.Steps = append(cj.Steps, StepJSON{Op: op, Go: res, Log: log, Chk: chk, WChk: wchk, Dump: dump})
 			cj.Feat["op_"+op.K]++
 			switch c {
 			case rErr:
